@@ -110,8 +110,10 @@ type verifC38OwnPool struct {
 func (p *verifC38OwnPool) Get(context.Context) (backend.PooledConnect, error) {
 	return &verifC38OwnConn{rec: p.rec}, nil
 }
+// GetCheck serves the namespace's periodic health check (a background
+// goroutine): its probe statements are not a session's and are not reported.
 func (p *verifC38OwnPool) GetCheck(ctx context.Context) (backend.PooledConnect, error) {
-	return p.Get(ctx)
+	return &verifC38Conn{}, nil
 }
 
 // SetBackendRecorder makes the in-memory backend of the environment report
@@ -123,4 +125,12 @@ func (e *VerifC38Env) SetBackendRecorder(rec func(sql string)) {
 		return
 	}
 	node.ConnPool = &verifC38OwnPool{rec: rec}
+}
+
+// SetMultiQuery switches support_multi_query of the environment's namespace:
+// with it a COM_QUERY of a client that announced CLIENT_MULTI_STATEMENTS takes
+// the path through doMultiStmts, which recycles the packet buffer before the
+// statement is executed.
+func (e *VerifC38Env) SetMultiQuery(on bool) {
+	e.manager.GetNamespace("verif_c38_ns").supportMultiQuery = on
 }
